@@ -769,6 +769,18 @@ def gen_draw_probe(rng):
             "probe": {"layer": pos, "rule": "draws", "shape": tree["t"], "wrapper": wrapper}}
 
 
+DECISION_WINDOW = 32
+
+
+def gen_decision_probe(rng):
+    """MUGSMultiViewWrapper over a window of 32 indices with the recorded ctx: its own weak/strong decision must vary"""
+    T = H.t_img("pil", 3, 12, 12)
+    layer = {"w": "mugs_mv", "seed": gen_seed(rng), "in": T, "global_size": rng.choice([8, 16]), "local_size": 8, "num_local_crops": rng.choice([0, 0, 1])}
+    return {"family": "probe", "n": DECISION_WINDOW, "data": {"T": T, "seed": rng.randrange(10 ** 6), "const": rng.random() < 0.5}, "layers": [layer],
+            "mode": "x", "return_ctx": True, "hist_cap": 6,
+            "probe": {"layer": 0, "rule": "decisions", "ctx_key": "is_weak_global_aug", "window": DECISION_WINDOW, "shape": "is_weak_global_aug", "wrapper": "mugs_mv"}}
+
+
 # ------------------------------------------------------------------------------------------------- request forms
 FORM_ITEMS = {"semseg": ("x", "semseg"), "mix": ("x", "class")}
 
